@@ -1,7 +1,7 @@
 (* C10 - time bookkeeping of qutip.solver.floquet.fsesolve
-   (qutip/solver/floquet.py):
+   (qutip/solver/floquet.py, after a3f3594):
 
-       f_coeff = floquet_basis.to_floquet_basis(psi0)        # default t = 0
+       f_coeff = floquet_basis.to_floquet_basis(psi0, tlist[0])
        for t in tlist:
            state_t = floquet_basis.from_floquet_basis(f_coeff, t)
            result.add(t, state_t)
@@ -10,34 +10,37 @@
    propagator) is numerics and enters as two oracle functions
      to_fb psi t   = coefficients of psi in the Floquet states at time t
      from_fb f t   = state with coefficients f at time t
-   Every other solver (Solver.run, FMESolver.run: to_floquet_basis(state0,
-   tlist[0])) takes the initial state as the state at tlist[0].
+   Like every other solver (Solver.run, FMESolver.run) the initial state is
+   the state at tlist[0].
    No proofs in this file. *)
 From Coq Require Import List ZArith.
 Import ListNotations.
 
 Section FSE.
 Variables S F T : Type.
-Variable tzero : T.                    (* the default argument t=0 *)
 Variable to_fb : S -> T -> F.
 Variable from_fb : F -> T -> S.
 
-(* the code as it is *)
-Definition fsesolve (psi0 : S) (tlist : list T) : list S :=
-  let f := to_fb psi0 tzero in map (from_fb f) tlist.
-
-(* the one-token repair: to_floquet_basis(psi0, tlist[0]) *)
-Definition fsesolve_at_t0 (psi0 : S) (tlist : list T) : list S :=
+(* the code as it is.  An empty time list makes tlist[0] raise IndexError:
+   None *)
+Definition fsesolve (psi0 : S) (tlist : list T) : option (list S) :=
   match tlist with
-  | [] => []
-  | t0 :: _ => let f := to_fb psi0 t0 in map (from_fb f) tlist
+  | [] => None
+  | t0 :: _ => let f := to_fb psi0 t0 in Some (map (from_fb f) tlist)
   end.
+
+(* the rule before a3f3594: to_floquet_basis(psi0) with the default t = 0 *)
+Variable tzero : T.
+Definition old_fsesolve (psi0 : S) (tlist : list T) : list S :=
+  let f := to_fb psi0 tzero in map (from_fb f) tlist.
 End FSE.
 
-(* a concrete Floquet-like instance used for the witness and for the
+(* a concrete Floquet-like instance used for non-vacuity and for the
    correspondence harness: one quasi-energy, phases written additively
    (state = phase angle, coefficient = phase at time 0) *)
 Definition toy_to (v t : Z) : Z := (v - t)%Z.
 Definition toy_from (f t : Z) : Z := (f + t)%Z.
-Definition toy_fsesolve (v : Z) (ts : list Z) : list Z := fsesolve Z Z Z 0%Z toy_to toy_from v ts.
-Definition toy_fsesolve_at_t0 (v : Z) (ts : list Z) : list Z := fsesolve_at_t0 Z Z Z toy_to toy_from v ts.
+Definition toy_fsesolve (v : Z) (ts : list Z) : option (list Z) :=
+  fsesolve Z Z Z toy_to toy_from v ts.
+Definition toy_old_fsesolve (v : Z) (ts : list Z) : list Z :=
+  old_fsesolve Z Z Z toy_to toy_from 0%Z v ts.
